@@ -165,8 +165,14 @@ def binary_path(harness, flavour):
     return os.path.join(tree_dir(), flavour, '%s-%s' % (harness, harness_hash(harness)))
 
 
+FAST = bool(os.environ.get('VERIF_FAST'))            # mutation sweeps only: functional flavours only (no sanitizer / valgrind / coverage builds)
+FAST_SKIP = ('asan', 'tsan', 'valgrind', 'cov', 'mpiasan')
+
+
 def build(harness, flavour, extra_flags=''):
     """compile harness/<harness>.cpp for a flavour against REPO's current working tree (cached by content hash)"""
+    if FAST and flavour in FAST_SKIP:
+        return '/skipped/%s/%s-0' % (flavour, harness)
     out = binary_path(harness, flavour) + (('-' + hashlib.sha1(extra_flags.encode()).hexdigest()[:6]) if extra_flags else '')
     with FileLock(out + '.lock'):
         if os.path.exists(out) and os.path.exists(out + '.ok'):
@@ -488,6 +494,8 @@ def run_chunk(agg, cmd_prefix, mode, seed, a, b, opts, env, timeout, source, max
 def run_cases(binary, mode, seed, total, opts=None, env=None, nproc=None, chunk=None, timeout=600, source=None,
               max_samples=3, hang_is_violation=False, wrapper=None, agg=None, start=0):
     agg = agg or Agg()
+    if binary.startswith('/skipped/'):
+        return agg
     nproc = nproc or NPROC
     source = source or (os.path.basename(binary).split('-')[0] + ':' + mode)
     if chunk is None:
